@@ -190,13 +190,17 @@ def check_conversions(run, F):
             tested = any('!VALID(dt)' in cs for cs, l, ef in t)
             uses_total = any(c in total_ctor for c in calls)
             uses_partial = any(c in partial_ctor for c in calls)
-            ok = tested or (uses_partial and not uses_total)
+            # a fallible constructor rejects NaT only if the NaT tick count lies outside chrono's
+            # range: true for s / ms / us, false for ns (i64::MIN ns is 1677-09-21, a valid instant)
+            unit_ = _unit_of(fn.d.get('impl_trait_ref', '').split('TryFrom<', 1)[-1])
+            out_of_range = unit_ != 'Nanosecond'
+            ok = tested or (uses_partial and not uses_total and out_of_range)
             run.ob('NAT.guard', fn, 'TryFrom<%s>' % N._short(fn.d.get('impl_trait_ref', '').split('TryFrom<')[-1].rstrip('>')),
                    ok, fn.loc(),
                    'NaT test: %s; constructor(s) %s (%s)' % (
                        tested, [c for c in calls if c.startswith('from_timestamp')],
-                       'range excludes i64::MIN ticks' if uses_partial and not uses_total else
-                       'total constructor needs the test'))
+                       'range excludes i64::MIN ticks' if uses_partial and not uses_total and out_of_range else
+                       'i64::MIN ticks denote a valid instant at this unit: the NaT test is needed'))
     return n
 
 
